@@ -882,6 +882,9 @@ def sum_bound(terms, groups=0):
     return (k * u / (1 - k * u)) * math.fsum(abs(t) for t in terms) + u * abs(math.fsum(terms))
 
 
+TYPE_FEED = []      # (transactions in the category loop's own order, typeTotals per category) of every report rendered: fed to the model
+
+
 def sum_agrees(observed, terms, groups=0):
     return isinstance(observed, (int, float)) and not isinstance(observed, bool) and \
         abs(observed - math.fsum(terms)) <= sum_bound(terms, groups)
@@ -975,6 +978,48 @@ def check_data(data, stats, case, fail, want, suffix=''):
                 fail('html-category-sums' + suffix, category=cat, subcategory=sub, observed=s.get('total'), required=math.fsum(below),
                      allowed_error=sum_bound(below))
                 return
+    # typeTotals: report.py's own copy of the classification.  Per category the four figures are the sums over the transactions
+    # LISTED UNDER that category, each counted in ONE figure by the property's reading of the tags (income > investment > transfer by
+    # lower-cased membership, otherwise spending when positive); over all categories they add up to the analysed income / investment /
+    # transfers in + out / spending  (Props/C12 type_totals_add_up; the chain itself is regenerated into Gen/ReportTypes.lean)
+    def own_bucket(t):
+        tl = [x.lower() for x in (t.get('tags') or [])]
+        a = t.get('amount') or 0
+        for k in ('income', 'investment', 'transfer'):
+            if k in tl:
+                return k, abs(a)
+        return ('spending', a) if a > 0 else (None, 0)
+    grand = {k: [] for k in ('spending', 'income', 'investment', 'transfer')}
+    fed = []
+    for cat, c in cv.items():
+        tt = c.get('typeTotals')
+        if not isinstance(tt, dict) or sorted(tt) != sorted(grand):
+            fail('html-type-totals' + suffix, category=cat, observed=tt, required='a record with spending / income / investment / transfer')
+            return
+        terms = {k: [] for k in grand}
+        for s in (c.get('subcategories') or {}).values():
+            for m in (s.get('merchants') or {}).values():
+                for t in m.get('transactions') or []:
+                    k, v = own_bucket(t)
+                    if k:
+                        terms[k].append(v)
+                    fed.append({'category': cat, 'amount': t.get('amount') or 0, 'tags': [x.lower() for x in (t.get('tags') or [])]})
+        for k in grand:
+            if not sum_agrees(tt[k], terms[k]):
+                fail('html-type-totals' + suffix, category=cat, figure=k, observed=tt[k], required=math.fsum(terms[k]), allowed_error=sum_bound(terms[k]),
+                     transactions=[{'amount': t.get('amount'), 'tags': t.get('tags')} for s in c['subcategories'].values()
+                                   for m in s['merchants'].values() for t in m.get('transactions') or []][:12])
+                return
+            grand[k] += terms[k]
+    analysed = {'income': stats.get('income_total', 0), 'investment': stats.get('investment_total', 0),
+                'transfer': stats.get('transfers_in', 0) + stats.get('transfers_out', 0), 'spending': stats.get('spending_total', 0)}
+    for k in grand:
+        got = sum(c['typeTotals'][k] for c in cv.values())
+        if not sum_agrees(got, grand[k], groups=len(cv)) or not sum_agrees(analysed[k], grand[k], groups=1):
+            fail('html-type-totals' + suffix, figure=k, observed_sum_over_categories=got, analysed=analysed[k], required=math.fsum(grand[k]),
+                 allowed_error=sum_bound(grand[k], len(cv)))
+            return
+    TYPE_FEED.append((fed, {cat: c['typeTotals'] for cat, c in cv.items()}))
     # views: every merchant of a view appears in it exactly once
     for name, sec in (stats.get('sections') or {}).items():
         exp = [n for n, _ in sec.get('merchants', [])]
@@ -1481,6 +1526,28 @@ def conclude(ctx, prop_fail, search):
                                                     'on the real code found no input on which the property fails'}, nofail=True)
 
 
+def type_totals_correspondence(ctx):
+    """every report rendered by this run: the per-category typeTotals of the embedded data vs `ReportTypes.typeTotalsByCat` over
+    `Gen.ReportTypes.type_contrib` (REGENERATED from report.py's own chain), the transactions fed in the order the report's loop walks
+    them (category, subcategory, merchant, transaction) - so the float sums are the same additions in the same order: bit for bit"""
+    feeds = TYPE_FEED[:400 if ctx.quick else 6000]
+    bad, both = [], 0
+    if feeds:
+        drv = common.Driver()
+        outs = drv.batch([{'op': 'typetotals', 'txns': [{'amount': common.float_bits(float(t['amount'])), 'tags': t['tags'], 'merchant': '',
+                                                        'category': t['category'], 'subcategory': '', 'month': ''} for t in fed]}
+                          for fed, _ in feeds])
+        for (fed, tt), mo in zip(feeds, outs):
+            got = {c: {'spending': a, 'income': b, 'investment': i, 'transfer': x} for c, a, b, i, x in mo.get('by_category', [])}
+            want = {c: {k: common.float_bits(float(v)) for k, v in rec.items()} for c, rec in tt.items() if any(t['category'] == c for t in fed)}
+            both += sum(1 for t in fed if sum(k in t['tags'] for k in ('income', 'investment', 'transfer')) >= 2)
+            if got != want and len(bad) < 3:
+                bad.append({'transactions': fed[:20], 'model': got, 'implementation': want})
+    ctx.obligation('correspondence:build_category_view(typeTotals)-vs-typeTotalsByCat/type_contrib', 'correspondence', not bad, cases=len(feeds),
+                   error=json.dumps(bad[0], default=str)[:1500] if bad else None)
+    return {'type_totals_reports': len(feeds), 'transactions_with_two_special_tags': both}
+
+
 def nontrivial(case, info):
     strs = [t['description'] for t in case['txns']] + [t['merchant'] for t in case['txns']]
     adversarial = any(re.search(r'[<"\\\u0080-\U0010ffff]|PLACEHOLDER', s) for s in strs)
@@ -1488,7 +1555,9 @@ def nontrivial(case, info):
 
 
 def run(ctx):
-    common.lean_phase(ctx, 'TallyVerif.Props.C12')
+    from .. import regen
+    common.lean_phase(ctx, 'TallyVerif.Props.C12', regen.regen_c12)
+    del TYPE_FEED[:]
     r = ctx.rng
     impl = Impl()
     try:
@@ -1576,6 +1645,7 @@ def run(ctx):
             step = max(1, len(idc) // (120 if ctx.quick else 2500))
             corr.update(alloc_correspondence(ctx, impl, idc[::step], os.path.join(impl.tmp, 'tpl-id')))
             corr.update(calendar_correspondence(ctx, calc[::max(1, len(calc) // 2500)]))
+            corr.update(type_totals_correspondence(ctx))
         except Exception as e:
             corr = {'error': repr(e)[:500]}
             ctx.obligation('correspondence:driver', 'correspondence', False, error=repr(e)[:800])
